@@ -46,6 +46,8 @@ type Script struct {
 	// handlers are still parked, then these steps (cancel / release / race / sleep) follow. Closing must not
 	// stop cancellations from reaching the handlers it is waiting for.
 	CloseTail []Step `json:"close_tail,omitempty"`
+	// CallerCloses: it is the calling side (instead of the answering side) that starts the graceful Close.
+	CallerCloses bool `json:"caller_closes,omitempty"`
 }
 
 func genScript(rt *rapid.T) Script {
@@ -89,6 +91,7 @@ func genScript(rt *rapid.T) Script {
 			}
 			s.CloseTail = append(s.CloseTail, st)
 		}
+		s.CallerCloses = rapid.Bool().Draw(rt, "caller_closes")
 	}
 	return s
 }
@@ -335,7 +338,7 @@ func runInBubble(s Script) (res vt.Result) {
 			}
 			blockMu.Unlock()
 			synctest.Wait()
-			if s.Dir == "c2s" {
+			if (s.Dir == "c2s") != s.CallerCloses {
 				go ss.Close()
 			} else {
 				go cs.Close()
@@ -521,7 +524,11 @@ func finish(res vt.Result, s Script, desc *strings.Builder, w *world, cancelledI
 		res.Class("cancel_racing_response")
 	}
 	if i := strings.Index(desc.String(), "K"); i >= 0 && strings.ContainsAny(desc.String()[i:], "xR") {
-		res.Class("cancel_while_peer_is_closing")
+		if s.CallerCloses {
+			res.Class("cancel_while_caller_is_closing")
+		} else {
+			res.Class("cancel_while_peer_is_closing")
+		}
 	}
 	return res
 }
